@@ -367,6 +367,9 @@ Theorem describe_repack_same_tree : forall compress uncompress, meta_contract16 
 Proof. exact describe_repack_same_tree_l. Qed.
 Print Assumptions describe_repack_same_tree.
 
+(* (independent audit 4, item 5: the CONTENT of the statement below is its second conjunct - the re-read hierarchy is handed to
+   describe as the identical input; the last conjunct follows from the fourth and the hypotheses by rewriting and is kept only
+   as the readable form of "the third generation is byte-identical to the second") *)
 Theorem describe_repack_fixed_point : forall compress uncompress, meta_contract16 compress uncompress ->
   forall limit, limit <= 65536 ->
   forall bs d uroot lt pp2 fb2 xa2 img2,
